@@ -144,18 +144,6 @@ theorem fromRecords_instRecords (service : Name) (inst : Label) (ips : List (Boo
   rw [foldl_insertNew ips [] hips (by simp), foldl_insertNew ports [] hports (by simp)]
   simp [Name.display]
 
-theorem from_records_of_into_records (service : Name) (inst : Label) (ips : List (Bool × Nat))
-    (ports : List Nat) (attrs : Attrs) (ttl : Nat) (hips : ips.Nodup) (hports : ports.Nodup)
-    (hattrs : MapOK attrs) (hkeys : ∀ e ∈ attrs, e.1 ≠ "") :
-    ∃ rs, intoRecords (inst :: service) ips ports attrs ttl = .ok rs ∧
-      fromRecords service rs = some { name := inst, ips := ips, ports := ports, attrs := attrs } := by
-  obtain ⟨ss, hss, hat⟩ := attrs_roundtrip attrs hattrs
-  refine ⟨instRecords (inst :: service) ips ports ss ttl, ?_, ?_⟩
-  · rw [intoRecords_eq, hss]; rfl
-  · rw [fromRecords_instRecords service inst ips ports ss ttl hips hports, hat,
-      filter_nonempty_keys attrs hkeys, attrsExtend_fresh attrs [] hattrs.1 (by simp [Attrs.keys])]
-    simp
-
 /-! ### the records of one instance are pairwise different -/
 
 
